@@ -771,7 +771,80 @@ def rule_q5(ctx, facts):
     ctx.inst("Q5", e, "is_empty() is len() == 0", e.span, ok, "len() == 0" if ok else "is_empty is not defined as len() == 0: it can disagree with len at a quiescent point")
 
 
+def rule_q9(ctx, facts, rule="Q9"):
+    """the entry counter only ever changes by the delta its caller passed: every write to `HashMap.count` is a `fetch_add` / `fetch_sub`,
+    and in add_count what the RMW leaves in memory is `old + n` for the parameter n (abs() resolved by the sign fact of the enclosing
+    branch).  A counter that saturates, is stored, swapped or updated conditionally loses adjustments: put links before it counts, so the
+    count is legitimately negative for a moment when a removal is counted before the insert it undoes."""
+    from .anchors import is_std_atomic, receiver_field
+    from .affine import evaluator, Aff, TOP
+    from .rules_c14 import sign_fact
+    n = 0
+    for b in facts.bodies:
+        for c in b.calls:
+            kind = is_std_atomic(c)
+            if kind is None or kind in ("load", "new", "get_mut", "into_inner") or b.is_cleanup(c.b):
+                continue
+            if ("map::HashMap", "count") not in receiver_field(b, c, 0):
+                continue
+            n += 1
+            what = "%s on the entry counter" % kind
+            if kind not in ("fetch_add", "fetch_sub"):
+                ctx.inst(rule, b, what, c.span, False,
+                         "the entry counter is written by %s, not by an unconditional addition of the delta: an adjustment can be swallowed or "
+                         "overwritten, and len() then disagrees with the entries for good" % kind)
+                continue
+            ev = evaluator(b)
+            d = ev.operand(c.args[1])
+            if d is TOP:
+                ctx.inst(rule, b, what, c.span, True, "delta not affine; not judged", nontrivial=False)
+                continue
+            for sy in list(d.symbols()):
+                if sy[0] == "call":
+                    cc = b.call_at(sy[1])
+                    if cc is not None and callee_str(cc).endswith("::abs"):
+                        inner = ev.operand(cc.args[0])
+                        if inner is not TOP and len(inner.symbols()) == 1 and inner.c == 0:
+                            s0 = next(iter(inner.symbols()))
+                            sg = sign_fact(b, c.point, s0)
+                            if sg is not None and sg != 0:
+                                d = d.subst(sy, inner.scale(sg))
+            eff = d if kind == "fetch_add" else d.scale(-1)
+            params = [Aff.sym(("arg", k)) for k in range(1, b.nargs + 1) if b.ty(k).get("s") == "isize"]
+            ok = any(eff == p for p in params) if params else True
+            ctx.inst(rule, b, what, c.span, ok,
+                     "memory becomes old + %s: the delta the caller passed" % eff.show(b) if ok else
+                     "the RMW changes the counter by %s, which is not the delta parameter" % eff.show(b))
+    if n < 2:
+        ctx.fail_closed("%s: expected the two RMWs of add_count on HashMap.count, found %d" % (rule, n))
+
+
+def rule_q1_all(ctx, facts, rule="Q1"):
+    """Q1 over put, every body that unlinks entries, and clear; under another rule name when a sibling property shares the clause"""
+    before = len(ctx.instances)
+    put = facts.body("map::HashMap::put")
+    c, e = put_events(facts, put)
+    run_count(ctx, facts, put, +1, c, e, 3)
+    removal_bodies = find_removal_bodies(facts)
+    if len(removal_bodies) < 2:
+        ctx.fail_closed("Q1: expected at least two bodies that unlink entries (compute_if_present, replace_node), found %d" % len(removal_bodies))
+    uncounted = []
+    for b, c, e in removal_bodies:
+        spec = run_count(ctx, facts, b, -1, c, e, 2, lift_ok=True)
+        if spec is not None and spec.returns_pending and not b.exported and all("returns after an entry" in why for (_, why) in spec.errors):
+            uncounted.append(b)
+    lifted_count_check(ctx, facts, uncounted)
+    rule_q1_clear(ctx, facts)
+    if rule != "Q1":
+        for i in ctx.instances[before:]:
+            if i.rule == "Q1":
+                i.rule = rule
+
+
 def run(ctx, facts):
+    ctx.rule("Q9", "the entry counter changes only by the delta passed to add_count: every write to HashMap.count is fetch_add / fetch_sub of "
+                   "that delta (no saturation, store, swap or conditional update)", floor=2)
+    rule_q9(ctx, facts)
     ctx.rule("Q8", "iteration visits every node of a bin: NodeIter::next yields the successor of the last node whenever the link is non-null "
                    "(rule T5 of C07) -- otherwise iteration yields fewer keys than len() counts and lookups find", floor=3)
     from .rules_c07 import rule_t5
@@ -791,19 +864,7 @@ def run(ctx, facts):
     ctx.rule("Q1", "the entry count is adjusted exactly once per link (put) / unlink (compute_if_present, replace_node, clear), on every feasible path", floor=6)
     ctx.rule("Q2", "single finisher and complete publication (rule Z1)", floor=2)
     ctx.rule("Q3", "every Table::new length has power-of-two provenance", floor=5, floor_note="init_table, presize, try_presize, transfer + aux")
-    put = facts.body("map::HashMap::put")
-    c, e = put_events(facts, put)
-    run_count(ctx, facts, put, +1, c, e, 3)
-    removal_bodies = find_removal_bodies(facts)
-    if len(removal_bodies) < 2:
-        ctx.fail_closed("Q1: expected at least two bodies that unlink entries (compute_if_present, replace_node), found %d" % len(removal_bodies))
-    uncounted = []
-    for b, c, e in removal_bodies:
-        spec = run_count(ctx, facts, b, -1, c, e, 2, lift_ok=True)
-        if spec is not None and spec.returns_pending and not b.exported and all("returns after an entry" in why for (_, why) in spec.errors):
-            uncounted.append(b)
-    lifted_count_check(ctx, facts, uncounted)
-    rule_q1_clear(ctx, facts)
+    rule_q1_all(ctx, facts)
     from .rules_c10 import rule_z1
     before = len(ctx.instances)
     rule_z1(ctx, facts)
